@@ -398,6 +398,19 @@ breaking('RB1-seed-C01-r7m2', {'C01': 'RB1'}, patch='/verif/selftest/patches/see
 breaking('SP5-seed-C09-r7m2', {'C09': 'SP5'}, patch='/verif/selftest/patches/seed_C09_r7m2.diff')
 breaking('NRM1-seed-C10-r7m1', {'C10': 'NRM1'}, patch='/verif/selftest/patches/seed_C10_r7m1.diff')
 breaking('DT13-seed-C15-r7m2', {'C15': 'DT13'}, patch='/verif/selftest/patches/seed_C15_r7m2.diff')
+breaking('FL1-seed-C01-r7m1', {'C01': 'FL1'}, patch='/verif/selftest/patches/seed_C01_r7m1.diff')
+breaking('FL1-symext-realignment-dropped', {'C05': 'FL1'}, edit=[('python/numqi/entangle/symext.py',
+         "    rho = rho.reshape(-1,dimA,dimB,dimA,dimB).transpose(0,1,3,2,4).reshape(-1,dimA*dimA,dimB*dimB)",
+         "    rho = rho.reshape(-1,dimA,dimB,dimA,dimB).reshape(-1,dimA*dimA,dimB*dimB)")])
+breaking('FL1-pauli-f2-transpose-dropped', {'C08': 'FL1', 'C07': 'FL1'}, edit=[('python/numqi/gate/_pauli.py',
+         "        np0 = np0.reshape(N0,2,num_qubit).transpose(0,2,1).reshape(N0*num_qubit,2)",
+         "        np0 = np0.reshape(N0,2,num_qubit).reshape(N0*num_qubit,2)")])
+preserving('FL1-ok-power-sizes', ['C05'], edit=[('python/numqi/entangle/symext.py',
+         "    rho = rho.reshape(-1,dimA,dimB,dimA,dimB).transpose(0,1,3,2,4).reshape(-1,dimA*dimA,dimB*dimB)",
+         "    rho = rho.reshape(-1,dimA,dimB,dimA,dimB).transpose(0,1,3,2,4).reshape(-1,dimA**2,dimB**2)")])
+preserving('FL1-ok-swapaxes', ['C05'], edit=[('python/numqi/entangle/symext.py',
+         "    rho = rho.reshape(-1,dimA,dimB,dimA,dimB).transpose(0,1,3,2,4).reshape(-1,dimA*dimA,dimB*dimB)",
+         "    rho = rho.reshape(-1,dimA,dimB,dimA,dimB).swapaxes(2,3).reshape(-1,dimA*dimA,dimB*dimB)")])
 breaking('GI1-seed-C11-r7m1', {'C11': 'GI1'}, patch='/verif/selftest/patches/seed_C11_r7m1.diff')
 preserving('GI1-ok-indexed-by-position', ['C11'], edit=[('python/numqi/sim/_torch_utils.py', "                else: #custom measure\n                    info = dict(kind=kind, name=name, index=index, gate=gate)",
             "                else: #custom measure\n                    info = dict(kind=kind, name=name, index=index, gate=gate_index_list[ind0][0])")])
